@@ -12,7 +12,9 @@ import DclabModel.DriveUtil
     close                                   writer exit           → `ok` | `err`
     view   → what the readers see   `F n=t,t … | T … | C t,t | L n=b.b/b.b … | B n=c,c:t,t/t,t …`
     spec   → the same for the specification
-    raw    → `K n=chunk … | TK n=chunk … | CN 0,1,… | W n=width … | N evcount`
+    brandname <s>                           the entry `version_brand` appends (spaces as `_`)
+    vmeta <e|e|…>  or  vmeta -              store_metadata with / without a software version
+    raw    → `K n=chunk … | TK n=chunk … | CN 0,1,… | W n=width … | N evcount | V e|e|…`
 -/
 open DclabModel.Writer DclabModel.DriveUtil
 
@@ -24,6 +26,8 @@ structure D where
   tn : List String := []
   ln : List String := []
   bn : List String := []
+  ver : List String := []
+  dclab : String := "dclab"
 
 def addName (l : List String) (n : String) : List String := if l.contains n then l else n :: l
 
@@ -73,7 +77,7 @@ def showRaw (d : D) : String :=
     | none => "-"
     | some x => toString x
   "K " ++ joinWith " " k ++ " | TK " ++ joinWith " " tk ++ " | CN " ++ cn ++ " | W " ++
-    joinWith " " w ++ " | N " ++ n
+    joinWith " " w ++ " | N " ++ n ++ " | V " ++ joinWith "|" d.ver
 
 def doOp (d : D) (op : Op) : D × String :=
   let (st', o) := step d.cfg d.st op
@@ -82,12 +86,16 @@ def doOp (d : D) (op : Op) : D × String :=
 def handle (d : D) (line : String) : D × String :=
   match words line with
   | ["cfg", cb, rule] => match cb.toNat?, rule with
-    | some c, "fixed" => ({ cfg := { chunkBytes := c, text := .fixed } }, "ok")
-    | some c, "old" => ({ cfg := { chunkBytes := c, text := .old } }, "ok")
+    | some c, "fixed" => ({ cfg := { chunkBytes := c, text := .fixed }, dclab := d.dclab }, "ok")
+    | some c, "old" => ({ cfg := { chunkBytes := c, text := .old }, dclab := d.dclab }, "ok")
     | _, _ => (d, "bad-op")
   | ["open", m] => match parseMode m with
-    | some m => doOp d (.openW m)
+    | some m => doOp { d with ver := if m = .reset then verStep d.dclab d.ver .reset else d.ver } (.openW m)
     | none => (d, "bad-op")
+  | ["brandname", b] => ({ d with dclab := b }, "ok")
+  | ["vmeta", v] =>
+    let given := if v = "-" then [] else v.splitOn "|"
+    ({ d with ver := verStep d.dclab d.ver (.store given) }, "ok")
   | "feat" :: name :: sc :: es :: toks => match es.toNat?, parseNats toks with
     | some e, some r =>
       if sc = "s" ∨ sc = "n" then
@@ -108,7 +116,7 @@ def handle (d : D) (line : String) : D × String :=
     | some cells =>
       doOp { d with bn := addName d.bn name } (.table name { cols := cols.splitOn ",", cells := cells })
     | none => (d, "bad-op")
-  | ["close"] => doOp d .close
+  | ["close"] => doOp { d with ver := verStep d.dclab d.ver .close } .close
   | ["view"] => (d, showView d (read d.st.f))
   | ["spec"] => (d, showView d d.sp.view)
   | ["raw"] => (d, showRaw d)
